@@ -5,6 +5,20 @@ import (
 	"unicode"
 )
 
+// IsUpperCase: the Unicode derived property Uppercase (general category Lu, or
+// Other_Uppercase: Roman numerals, circled / squared capital letters).
+func IsUpperCase(r rune) bool {
+	return unicode.IsUpper(r) || unicode.Is(unicode.Other_Uppercase, r)
+}
+
+// CaseUnambiguous tells whether the readings of "upper-case letter" agree on r: the Unicode
+// property Uppercase, and "changed by lower-casing" (the UCAN spec's "commands MUST be
+// lower-case"). Title-case letters, capital letters without a lower-case form and the like
+// are ambiguous and never judged.
+func CaseUnambiguous(r rune) bool {
+	return (unicode.ToLower(r) != r) == IsUpperCase(r) && !unicode.IsTitle(r)
+}
+
 // CmdValid: leading slash, no trailing slash (except "/"), no upper-case letters.
 func CmdValid(s string) bool {
 	if !strings.HasPrefix(s, "/") {
@@ -14,7 +28,7 @@ func CmdValid(s string) bool {
 		return false
 	}
 	for _, r := range s {
-		if unicode.IsUpper(r) {
+		if IsUpperCase(r) {
 			return false
 		}
 	}
